@@ -862,6 +862,11 @@ func (f *fx) specCall(e *ast.CallExpr, env *Env) TV {
 				gt = fn.Signature.Results().At(n).Type()
 			}
 		}
+		if gt == nil {
+			// an interface method or library function: take the result type from a call of it in this function
+			n, _ := strconv.Atoi(il.Value)
+			gt = f.calleeResultType(k, n)
+		}
 		if _, ok := f.e.keySorts[key]; !ok {
 			// a program point that is processed before the first call of the callee (no call yet on any path to it):
 			// the value is unconstrained there
@@ -887,6 +892,11 @@ func (f *fx) specCall(e *ast.CallExpr, env *Env) TV {
 			if n < fn.Signature.Results().Len() {
 				gt = fn.Signature.Results().At(n).Type()
 			}
+		}
+		if gt == nil {
+			// an interface method or library function: take the result type from a call of it in this function
+			n, _ := strconv.Atoi(il.Value)
+			gt = f.calleeResultType(k, n)
 		}
 		if _, ok := f.e.keySorts[key]; !ok {
 			if gt == nil {
@@ -967,6 +977,18 @@ func (f *fx) specCall(e *ast.CallExpr, env *Env) TV {
 		return tvTerm(f.e.fnIDByName(id.Name), nil)
 	case "int", "Pos", "int64", "rune", "byte", "uint64", "itemType", "NodeType", "uint8", "int32", "uint":
 		return arg(0)
+	case "string":
+		// string(b): the conversion function the code's own []byte->string conversions become
+		x := arg(0)
+		xt := f.reify(x.V)
+		if xt.Sort == "Str" {
+			return tvTerm(xt, types.Typ[types.String])
+		}
+		if xt.Sort != "Slice" {
+			unsupp("string(%s)", xt.Sort)
+		}
+		f.sc.declareOnce("conv_Slice_to_Str", "(declare-fun conv_Slice_to_Str (Slice) Str)")
+		return tvTerm(app("Str", "conv_Slice_to_Str", xt), types.Typ[types.String])
 	case "float64":
 		// float64(x): the conversion function the code's own int->float conversions become
 		x := arg(0)
@@ -1101,4 +1123,26 @@ func (e *Engine) staticType(x ast.Expr, env typeEnv) types.Type {
 	}
 	unsupp("cannot type spec expression %s statically", exprString(x))
 	return nil
+}
+
+// calleeResultType: the type of the n-th result of the callee with that key, read off a call of it in the unit.
+func (f *fx) calleeResultType(key string, n int) types.Type {
+	var found types.Type
+	var walk func(fn *ssa.Function)
+	walk = func(fn *ssa.Function) {
+		for _, b := range fn.Blocks {
+			for _, in := range b.Instrs {
+				if ci, ok := in.(ssa.CallInstruction); ok && found == nil && calleeKeyOf(ci.Common()) == key {
+					if rs := ci.Common().Signature().Results(); n < rs.Len() {
+						found = rs.At(n).Type()
+					}
+				}
+			}
+		}
+		for _, a := range fn.AnonFuncs {
+			walk(a)
+		}
+	}
+	walk(f.top.fn)
+	return found
 }
